@@ -4,6 +4,7 @@ package main
 // against the reference framing, for every payload length and source-reader chunking).
 
 import (
+	"bufio"
 	"bytes"
 	"encoding/binary"
 	"encoding/json"
@@ -492,6 +493,65 @@ func framingFamily(a *Args) error {
 				"frames": frames, "ctrs": ctrs, "sameAsRef": eerr == nil && bytes.Equal(hcBytes, refBytes),
 				"roundtrip": bytes.Equal(rt, payload), "decOfRef": derr == nil && bytes.Equal(dr, payload),
 				"lenLE": len(hcBytes) < 2 || int(binary.LittleEndian.Uint16(hcBytes[:2])) == firstLen(m.Len)})
+		}
+		// the same messages written into a real hap.Connection the way net/http writes responses: through a buffered
+		// writer (4096 bytes) on top of the connection, which relies on Write returning how much of ITS argument was
+		// taken; a reference controller session opens what reaches the socket
+		var shared2 [32]byte
+		rng.Read(shared2[:])
+		sc := newScriptConn()
+		if hcConn, err := encryptedConnection(sc, shared2); err == nil {
+			refPeer := ref.NewControllerSession(shared2)
+			for k, raw := range b.Steps {
+				var m frMsg
+				json.Unmarshal(raw, &m)
+				payload := make([]byte, m.Len)
+				rng.Read(payload)
+				sc.mu.Lock()
+				sc.written.Reset()
+				sc.mu.Unlock()
+				o := J{"ev": "conn", "case": b.ID, "i": k, "n": m.Len, "chunk": m.Chunk, "panic": false, "count": -1, "same": false, "direct": -1}
+				func() {
+					defer func() {
+						if r := recover(); r != nil {
+							o["panic"] = true
+						}
+					}()
+					if m.Chunk == "one_byte" || m.Len == 0 {
+						// written in one call, without a buffer in between
+						n, err := hcConn.Write(payload)
+						if err == nil {
+							o["direct"] = n
+						}
+						o["count"] = n
+					} else {
+						bw := bufio.NewWriterSize(hcConn, 4096)
+						n, _ := bw.Write(payload)
+						bw.Flush()
+						o["count"] = n
+					}
+				}()
+				sc.mu.Lock()
+				wire := append([]byte{}, sc.written.Bytes()...)
+				sc.mu.Unlock()
+				var got []byte
+				rd := bytes.NewReader(wire)
+				ok := true
+				for rd.Len() > 0 {
+					p, err := refPeer.OpenFrame(rd)
+					if err != nil {
+						ok = false
+						break
+					}
+					got = append(got, p...)
+				}
+				o["same"] = ok && bytes.Equal(got, payload)
+				lines = append(lines, o)
+				if !ok || o["panic"] == true {
+					break // the stream of this connection is out of step from here on
+				}
+			}
+			hcConn.Close()
 		}
 		tr.Block(lines)
 		mu.Lock()
